@@ -26,6 +26,8 @@
 (*                 every belief (best previous alpha per (action, observation, belief),    *)
 (*                 observations summed, reward added, discount, best action per belief),   *)
 (*                 then the convergence test delta < eps which breaks BEFORE assigning     *)
+(*                 (a planner object that planned another POMDP before must behave like a *)
+(*                 fresh one: planner-reuse histories are replayed against the same machine)*)
 (*     Expand(i)   one recorded call expand_beliefs(pomdp, B) -> B' (trace validation)     *)
 (*     Greedy(i)   one recorded call policy.action_dist(b) (trace validation)              *)
 (*     argmax ties are resolved by position (np.argmax = first); t = "last" is explored    *)
@@ -239,7 +241,7 @@ BackupAll(m, c, job, bs, X, kk, t) ==
   IN [X |-> nX, acts |-> ch, tie |-> tie, small |-> small, edge |-> edge]
 
 \* value of the alpha vectors at a weight vector, as a rational
-AlphaValue(m, X, nb, kk, w) ==
+AlphaSetValue(m, X, nb, kk, w) ==
   Norm(MaxTo([p \in 1..nb |-> Dot(m, w, X[p])], nb), Safe(BSum(m, w) * Pow(Sc(m), kk)))
 
 \* canonical form of the part of a weight vector that lies on non-absorbing states
@@ -267,7 +269,7 @@ JobResult(m, c, j, t, X, kk, acts, ph, tieflag, edgeflag) ==
       RS == RedSet(m, c, bs)
   IN [iid |-> iid, kind |-> "pbvi", job |-> j, tb |-> t, phase |-> ph, k |-> kk, scale |-> Pow(Sc(m), kk),
       alpha |-> X, acts |-> acts, tied |-> tieflag, edge |-> edgeflag, closed |-> cl,
-      val  |-> [i \in 1..Len(m.beliefs) |-> AlphaValue(m, X, nb, kk, W(m, m.beliefs[i]))],
+      val  |-> [i \in 1..Len(m.beliefs) |-> AlphaSetValue(m, X, nb, kk, W(m, m.beliefs[i]))],
       inset |-> [i \in 1..Len(m.beliefs) |-> InSet(m, c, RS, W(m, m.beliefs[i]))],
       cov  |-> [i \in 1..Len(m.beliefs) |-> Covered(m, c, RS, W(m, m.beliefs[i]))]]
 
@@ -405,11 +407,11 @@ BelW(i) == W(M, M.beliefs[i])
 NeverOver ==
   Live =>
      /\ \A i \in 1..Len(M.beliefs) :
-          RLeq(AlphaValue(M, bv, NB, k, BelW(i)), RAdd(orc.b[i].hi, SlackUp(M, orc.c, k)))
+          RLeq(AlphaSetValue(M, bv, NB, k, BelW(i)), RAdd(orc.b[i].hi, SlackUp(M, orc.c, k)))
      /\ \A i \in 1..NB :
           LET w  == JobBs(M, jx)[i]
               h1 == EM(M, orc.c, w, 1)
-          IN BSum(M, w) > 64 \/ RLeq(AlphaValue(M, bv, NB, k, w),
+          IN BSum(M, w) > 64 \/ RLeq(AlphaSetValue(M, bv, NB, k, w),
                   RAdd(Norm(h1[2], Safe(orc.c.den[1] * BSum(M, w))), SlackUp(M, orc.c, k)))
 \* (P2) on a belief set that is closed under (masked) successors the point-based backup is exact: at a
 \*      member, the value is the optimal k-step value, hence within SlackLo(k) below / SlackUp(k) above of
@@ -418,7 +420,7 @@ ClosedExact ==
   (Live /\ Closed(M, orc.c, JobBs(M, jx))) =>
      LET RS == RedSet(M, orc.c, JobBs(M, jx)) IN
      \A i \in 1..Len(M.beliefs) : InSet(M, orc.c, RS, BelW(i)) =>
-        RLeq(RSub(orc.b[i].lo, SlackLo(M, orc.c, k)), AlphaValue(M, bv, NB, k, BelW(i)))
+        RLeq(RSub(orc.b[i].lo, SlackLo(M, orc.c, k)), AlphaSetValue(M, bv, NB, k, BelW(i)))
 \* (P3) the bracket is a bracket, and deeper is tighter
 BracketSane ==
   phase # "new" => \A i \in 1..Len(M.beliefs) :
